@@ -111,7 +111,7 @@ def atom(draw, sizes, names, exts, mtimes, uids, notnum=False):
             op = CANON[op]
         if notnum and draw(st.sampled_from(range(12))) == 0:
             # a literal that is no number at all on a numeric column
-            return {"kind": "num", "col": col, "op": op, "lit": draw(st.sampled_from(["'root'", "'abc'", "'many'", "0x10", "'1_000'"])), "v": 0, "notnum": True}
+            return {"kind": "num", "col": col, "op": op, "lit": draw(st.sampled_from(["'root'", "'abc'", "'many'", "0x10", "'1_000'", "nan", "'NaN'", "'nan kb'"])), "v": 0, "notnum": True}
         if draw(st.sampled_from(range(5))) == 0:
             # a literal with a fractional part and no unit, between two attribute values: `size > 2.5`, `uid <= 999.5`
             frac = draw(st.sampled_from([".5", ".25", ".75", ".5", ".0"]))
